@@ -82,6 +82,18 @@ def run(chk):
             # directed search around the difference with the independent oracle
             near = sort.neighbourhood(small, len(small) - 1)
             vlib.run_scripts(chk, sort, c_exe, m_exe, near, sort.oracle)
+            if not chk.oracle_failures:
+                # a difference that depends on the LENGTH of the array (a pivot rule, a threshold): every
+                # length up to 5000 of an ascending and of a descending array, on the implementation only
+                sweep = []
+                for n in range(2, 5001):
+                    for kind in ("sorted", "rev"):
+                        for algo in ((1, 3) if n % 2 else (1, 0)):
+                            sweep.append(["gen 8 %s %d 0 0" % (kind, n), sort.sort_op("raw", algo)])
+                vlib.HARNESS_ENV["H_SCRIPT_TIMEOUT"] = "20"
+                vlib.run_impl_only(chk, sort, c_exe, sweep, sort.oracle)
+                chk.notes.append("directed search: ascending/descending arrays of every length 2..5000 on the implementation")
+                shrink_failures(chk, c_exe, m_exe)
     return chk.finish(assumptions=[
         "byte-level cstl_swap is modelled as an exchange of elements through the scratch cell; every width "
         "(1,2,4,8 fast paths; 3,16 memcpy path) is validated by the correspondence check under ASan",
